@@ -2,6 +2,8 @@ package gen
 
 import (
 	"math/rand"
+
+	"lalverif/ref"
 )
 
 // Elementary-stream model shared by C06 (RTMP ingest → TS/HLS/RTSP) and C07 (RTSP/PS/customize
@@ -33,6 +35,7 @@ type EsSpec struct {
 	AscChange      bool // AAC: a second sequence header with another channel configuration / object type mid-stream
 	TinyAudio      bool // Opus / G.711: some frames are a single byte (Opus DTX); they carry no tag and are matched by order
 	LonePS         bool // some non-key frames are preceded by a PPS or an SPS on its own (parameter-set update sent separately)
+	MetaAudio      int  // metadata announces the audio track: 1 = audiocodecid only; 2 = audiocodecid and an audiosamplerate that is the SOURCE's rate (Opus from a 16 kHz microphone, G.711 at 8 kHz) - 0: neither
 	NalLikeAudio   bool // Opus / G.711: frames begin with a byte that reads as an IDR / SPS / PPS NAL header (audio samples are arbitrary bytes)
 }
 
@@ -306,7 +309,16 @@ func (es *EsStream) AscAt(fi int) []byte {
 func (es *EsStream) RtmpMessages(withMeta bool) []EsMsg {
 	var out []EsMsg
 	ts0 := es.Spec.TsStart
-	if withMeta {
+	if withMeta && es.Spec.MetaAudio > 0 && es.Spec.ACodec != "" {
+		id := map[string]float64{"aac": 10, "g711a": 7, "g711u": 8, "opus": 13}[es.Spec.ACodec]
+		pairs := []ref.AmfPair{{Key: "width", Val: ref.AmfNum(640)}, {Key: "height", Val: ref.AmfNum(360)}, {Key: "lvinc", Val: ref.AmfNum(float64(es.Inc))}, {Key: "lvver", Val: ref.AmfNum(0)},
+			{Key: "audiocodecid", Val: ref.AmfNum(id)}}
+		if es.Spec.MetaAudio == 2 {
+			rate := map[string]float64{"aac": float64(es.AClock), "g711a": 8000, "g711u": 8000, "opus": 16000}[es.Spec.ACodec]
+			pairs = append(pairs, ref.AmfPair{Key: "audiosamplerate", Val: ref.AmfNum(rate)})
+		}
+		out = append(out, EsMsg{18, ts0, ref.AmfEncodeAll(ref.AmfStr("@setDataFrame"), ref.AmfStr("onMetaData"), ref.AmfObj(pairs...)), -1})
+	} else if withMeta {
 		out = append(out, EsMsg{18, ts0, Metadata(es.Inc, 0, true), -1})
 	}
 	switch es.Spec.VCodec {
